@@ -324,7 +324,7 @@ fn check_program(rep: &Report, slots: &[Slot], idx: usize, env: &drive::Env) {
             }
         }
     }
-    if idx % 401 == 7 {
+    if idx % 401 == 7 || rep.no_sample_yet() {
         rep.sample(4, || json!({"slots": slots.iter().map(|s| format!("{}: {} @{}", s.name, s.ty.render(), s.pos)).collect::<Vec<_>>(), "program": text}));
     }
 }
